@@ -33,13 +33,24 @@ func check(c Case) verdict {
 	return checkOn(s, &c)
 }
 
-func checkOn(s *server, c *Case) verdict {
+func checkOn(s *server, c *Case) verdict { return checkOnKeep(s, c, nil, 0) }
+
+// checkOnKeep also hands what the round trip delivered to a keeper (see kept.go).
+func checkOnKeep(s *server, c *Case, k *keeper, step int) verdict {
 	res, herr := execute(s, nil, c)
 	if herr != nil {
 		return verdict{class: "harness-error", what: herr.Error(), outcome: "harness-error"}
 	}
-	return judge(c, &res)
+	v := judge(c, &res)
+	if k != nil && v.class == "" {
+		k.keepResult(step, &res)
+	}
+	return v
 }
+
+// keptWindow: in the single round trips, the values delivered by a case are re-compared after each of
+// the next keptWindow cases of its group (other Runtime, possibly other server, same process).
+const keptWindow = 4
 
 func main() {
 	r := report.Start("C04", "exploration")
@@ -49,11 +60,12 @@ func main() {
 			Case
 			Steps []Case `json:"steps"`
 			Also  []Case `json:"also"`
+			Fresh bool   `json:"fresh"`
 		}
 		r.LoadReplay(&rc)
 		if len(rc.Steps) > 0 {
 			// a history on one instance
-			s := Session{Steps: rc.Steps, Also: rc.Also}
+			s := Session{Steps: rc.Steps, Also: rc.Also, Fresh: rc.Fresh}
 			v, at, steps := checkSession(&s, nil)
 			fmt.Printf("replay of a session of %d round trips on one server instance and one client.Runtime\n", len(s.Steps))
 			for i, st := range steps {
@@ -103,6 +115,8 @@ func main() {
 			mu.Unlock()
 		}()
 		cache := map[string]*server{}
+		keep := &keeper{}
+		recent := make([]Case, keptWindow+1)
 		var evals, nontrivial, may, dups int64
 		outcomes := map[string]int64{}
 		for i := 0; i < g.n; i++ {
@@ -127,7 +141,19 @@ func main() {
 				}
 			}
 			if s != nil {
-				v = checkOn(s, &c)
+				v = checkOnKeep(s, &c, keep, i)
+				recent[i%(keptWindow+1)] = c
+				if kv := keep.changed(); kv != nil && v.class == "" {
+					sess := Session{Fresh: true}
+					for j := kv.step; j <= i; j++ {
+						sess.Steps = append(sess.Steps, recent[j%(keptWindow+1)])
+					}
+					r.Fail("kept-value-changed-later", fmt.Sprintf("the %s of case %d of the group was %s when it was delivered and is %s after case %d (new Runtime for every case, same process)",
+						kv.label, kv.step, show(kv.snap), show(kv.live), i), sess)
+					outcomes["kept-value-changed-later"]++
+					keep.window(i + 1)
+				}
+				keep.window(i + 1 - keptWindow)
 			}
 			evals++
 			if v.nontrivial {
@@ -166,7 +192,7 @@ func main() {
 		}
 		bases := make([]base, n)
 		enum.Parallel(n, r.OutOfTime, func(i int) {
-			s := w.session([]int{i})
+			s := w.session(plan{idx: []int{i}})
 			v, obs := s.alone(0)
 			bases[i] = base{v, obs}
 			r.Eval(1)
@@ -184,8 +210,9 @@ func main() {
 		sess := sessionsOf(&w, r.Thorough())
 		rot := int(uint64(r.Seed) % uint64(len(sess)))
 		enum.Parallel(len(sess), r.OutOfTime, func(k int) {
-			idx := sess[(k+rot)%len(sess)]
-			s := w.session(idx)
+			pl := sess[(k+rot)%len(sess)]
+			idx := pl.idx
+			s := w.session(pl)
 			v, at, steps := checkSession(&s, func(i int) (verdict, string) { return bases[idx[i]].v, bases[idx[i]].obs })
 			var nt int64
 			outcomes := map[string]int64{}
